@@ -156,10 +156,10 @@ PROPS = {
                  'the projection of machine steps onto lifecycle actions is not proved (tied by correspondence)'],
     ),
     'C07': dict(
-        gen=['Scope', 'Timing'], props=['C07', 'C02', 'Skeletons'], model=['Machine/Run', 'Machine/Step', 'Machine/Kernel', 'Judge/Judges'], harness='c07',
+        gen=['Scope', 'Timing'], props=['C07', 'C02', 'MachineObjects', 'Skeletons'], model=['Machine/Run', 'Machine/Step', 'Machine/Kernel', 'Judge/Judges', 'Lemmas/KView', 'Lemmas/OView', 'Lemmas/OStepFrames', 'Lemmas/OStep'], harness='c07',
         trusted_base=KERNEL_TB + MACHINE_TB + ['coroutine skeletons pinned by regenerated templates (context.py, task.py, timing/notification/condition/flag, tracked.py)'],
         assumptions=['valid programs only: the generators avoid usage errors (past at= dates, negative delays, inverting a Moment)'],
-        partial=["until_exit_time (body abandoned and children closed in the trigger's time step) is not proved: judge + correspondence only"],
+        partial=["Props/MachineObjects.lean proves on the whole machine, for every program and every number of steps, that an until-scope keeps its owner, its notification and its interrupt signal (scope_listens_forever); until_exit_time (body abandoned and children closed in the trigger's time step) is not proved: judge + correspondence only"],
     ),
     'C08': dict(
         gen=['Tracked', 'Timing'], props=['C08', 'MachineStructure'], model=['Machine/Run', 'Machine/Step', 'Machine/Kernel', 'Judge/Judges', 'Lemmas/KView', 'Lemmas/OView', 'Lemmas/CView', 'Lemmas/CStepFrames', 'Lemmas/CStep'], harness='c08',
@@ -380,7 +380,7 @@ MANIFEST_TEXT = {
         technique='Lean 4 theorems (decision logic / per-primitive / frame level) + exact whole-machine differential traces + Lean trace judge',
         design_ref='6 (C06), 3, 4.B'),
     'C07': dict(
-        level='Lean 4 theorems: subscribe_already_true, subscribe_not_yet, trigger_schedules_interrupt (with awakeAll_order), pinned skeletons. The executable whole-machine model reproduces the real usim to the turn on scope trees and random valid programs with faults at every activation boundary; the Lean judge checks on every implementation trace: every until-scope ends no later than its notification fires (delays, dates, flags, two-flag connectives), never-ending blocks whose notification fired.',
+        level='On the whole machine, for every program and every number of steps: scope_listens_forever (an until-scope keeps its owner, notification and interrupt; Props/MachineObjects.lean). Lean 4 theorems: subscribe_already_true, subscribe_not_yet, trigger_schedules_interrupt (with awakeAll_order), pinned skeletons. The executable whole-machine model reproduces the real usim to the turn on scope trees and random valid programs with faults at every activation boundary; the Lean judge checks on every implementation trace: every until-scope ends no later than its notification fires (delays, dates, flags, two-flag connectives), never-ending blocks whose notification fired.',
         note='trusted: Lean kernel + standard axioms; templates/translator; whole-machine model tied by exact traces; until_exit_time (body abandoned and children closed in the triggers time step) is not proved: judge + correspondence only',
         technique='Lean 4 theorems (decision logic / per-primitive / frame level) + exact whole-machine differential traces + Lean trace judge',
         design_ref='6 (C07), 3, 4.B'),
